@@ -175,7 +175,7 @@ fn main() {
             &opts,
             "exploration",
             "c14",
-            opts.cases(700, 30000),
+            opts.cases(4000, 60000),
             jobs,
             "CLI leg: one evaluation = one run of the real rg binary (-j1 --sort path, pattern foo) over a generated tree whose files carry 1-2 NUL bytes at planned places (first byte, last byte, inside / just after a matching line, around 64 KiB, late, anywhere; some files stay text), named explicitly or reached by traversal, with default / --binary / --text, --mmap / --no-mmap, optionally under syscall-level read fragmentation, in line, count, list, context and multi-line modes. Oracle: no NUL byte on stdout unless --text; in line mode per file: --text and text files print exactly the model's lines; a NUL-bearing file prints a NUL-free prefix of its matching lines plus at most one notice, which comes last; explicit / --binary: silent only if nothing matches; traversed default: a proper non-empty prefix must be followed by the warning. distinct_nontrivial = distinct (workload, stdout) outcomes with NUL-bearing files plus distinct library-leg cases.",
             vec![
